@@ -45,7 +45,7 @@ def judge(spec: dict, out: _gen.GenOutcome, log: core.EventLog):
     if out.exc is not None:
         if isinstance(out.exc, AssertionError):
             raise core.NotJudged("generator-rejected-arguments")
-        if default_args and gen in ("gen_dfs", "gen_wilson"):
+        if default_args and gen in ("gen_dfs", "gen_wilson", "gen_prim"):  # gen_prim: the depth-first generator under its alias (randomised stack)
             raise core.Violation("C01.default-generator-raised", f"{gen}{(r, c)} raised {out.exc!r}")
         raise core.NotJudged("generator-raised:" + type(out.exc).__name__)
     maze = out.maze
@@ -55,7 +55,7 @@ def judge(spec: dict, out: _gen.GenOutcome, log: core.EventLog):
         raise core.Violation("C01.wellformed", f"{gen}{(r, c)} {kw}: " + "; ".join(errs))
     n_edges = len(graph.edges(conn))
     log.add("out", core.digest(conn.tolist()), n_edges)
-    if default_args and gen in ("gen_dfs", "gen_wilson"):
+    if default_args and gen in ("gen_dfs", "gen_wilson", "gen_prim"):  # gen_prim: the depth-first generator under its alias (randomised stack)
         good, why = graph.is_spanning_tree(conn)
         if not good:
             raise core.Violation("C01.spanning-tree", f"{gen}{(r, c)} default args: {why}")
@@ -86,7 +86,7 @@ def run_one(spec: dict) -> dict:
     except core.Violation as v:
         return core.violation(v.oracle, v.msg, log, key=v.key, stats=stats, spec=spec, **extra)
     r, c = spec["shape"]
-    if not spec["kwargs"] and spec["gen"] in ("gen_dfs", "gen_wilson"):
+    if not spec["kwargs"] and spec["gen"] in ("gen_dfs", "gen_wilson", "gen_prim"):
         stats["probe_spanning_tree_checked"] = 1
     if spec["gen"] == "gen_percolation" and spec["kwargs"].get("p") in (0.0, 1.0):
         stats["probe_percolation_extreme_p"] = 1
